@@ -17,6 +17,7 @@ func (m *Mon) checkState(sc *StepCtx) {
 	m.stateC01(sc, s)
 	m.stateC03(sc, s)
 	m.stateC11(sc, s)
+	m.stateC11Markers(sc, s)
 	m.stateC12(sc, s)
 	m.stateC13(sc, s)
 	m.stateC14(sc, s)
@@ -168,6 +169,21 @@ func (m *Mon) stateC11(sc *StepCtx, s *Snap) {
 		hs := s.ExpQ[cid]
 		if len(hs) != 1 || hs[0] != r.ExpirationHeight {
 			m.failState(sc, "C11", "Q5-pending-covered", "no-expiry-event", "pending request expiring at %d but context %.16s has expiry events %v (after %s)", r.ExpirationHeight, cid, hs, sc.Step.Desc)
+		}
+	}
+}
+
+// by-binding pending markers are "requests awaiting a response" too (they drive the
+// provider-side listing): each must be covered by its context's pending expiry
+func (m *Mon) stateC11Markers(sc *StepCtx, s *Snap) {
+	for id, ab := range s.ActiveBind {
+		cid, _, _, _, ok := reqParts(id)
+		if !ok {
+			continue
+		}
+		hs := s.ExpQ[cid]
+		if _, has := s.Contexts[cid]; !has || len(hs) != 1 || hs[0] != ab.ExpHeight {
+			m.failState(sc, "C11", "Q5-pending-covered", "by-binding-marker", "provider-side pending marker of request %.24s.. (expiry %d) is not covered by a pending expiry of its context (events %v) after %s", id, ab.ExpHeight, hs, sc.Step.Desc)
 		}
 	}
 }
